@@ -41,6 +41,10 @@ struct PayHash {
     preimage: [u8; 32],
     /// approved (Ok(true)) invoice/keysend amount in msat
     approved_msat: Option<u64>,
+    /// the invoice as the signer held it when it was last allowed to change: at an approval request and after a
+    /// heartbeat (the only request that prunes expired or fulfilled invoices).  Anything else - a restart in
+    /// particular - must leave approved invoices alone, so between those moments this recorded value is used.
+    held_msat: Option<u64>,
     preimage_given: bool,
     /// clause 1 currently violated (report only the transition, i.e. the update that caused it)
     violating: bool,
@@ -123,7 +127,7 @@ impl Hist {
             pre[..8].copy_from_slice(&((shard as u64) << 40 | index << 8 | k).to_le_bytes());
             pre[31] = 0x42;
             let hash = PaymentHash(sha256::Hash::hash(&pre).to_byte_array());
-            h.pool.push(PayHash { hash, preimage: pre, approved_msat: None, preimage_given: false, violating: false, tainted: false, reapproved_with_inflight: false });
+            h.pool.push(PayHash { hash, preimage: pre, approved_msat: None, held_msat: None, preimage_given: false, violating: false, tainted: false, reapproved_with_inflight: false });
         }
         // bootstrap commitment 0 on both sides of every channel through the real API
         for ci in 0..h.chans.len() {
@@ -236,6 +240,14 @@ impl Hist {
         total
     }
 
+    /// look at the invoices the signer holds (called after approval requests and heartbeats only)
+    fn observe_held(&mut self) {
+        let st = self.world.node.get_state();
+        for p in self.pool.iter_mut() {
+            p.held_msat = st.invoices.get(&p.hash).map(|i| i.amount_msat);
+        }
+    }
+
     fn ledger_json(&self) -> Value {
         let mut v = vec![];
         for ch in &self.chans {
@@ -261,7 +273,10 @@ impl Hist {
             // fulfilled and then pruned by a heartbeat is no longer one (the hash then falls under the
             // tolerated already-known-uninvoiced case, issue 331).  Whether the signer still holds the
             // invoice, and its amount, is observed through its public state.
-            let held = self.world.node.get_state().invoices.get(&hash).map(|i| i.amount_msat);
+            let held = self.pool[k].held_msat;
+            if held.is_some() != self.world.node.get_state().invoices.contains_key(&hash) {
+                r.count("clause1.signer_invoice_set_changed_outside_approval_and_heartbeat");
+            }
             let amount = match held {
                 Some(a) => a,
                 None => {
@@ -517,6 +532,7 @@ fn run_history(rng: &mut Rng, r: &mut Report, cli: &Cli, shard: usize, index: u6
                     status(report::catch(|| h.world.node.add_keysend(payee, hash, amount)))
                 };
                 h.log.push(json!(["approve", hex::encode(&hash.0[..4]), amount, format!("{:?}", res)]));
+                h.observe_held();
                 if let Ok(true) = res {
                     if h.pool[k].approved_msat.is_none() {
                         r.count("approved");
@@ -538,6 +554,7 @@ fn run_history(rng: &mut Rng, r: &mut Report, cli: &Cli, shard: usize, index: u6
             }
             6 => {
                 let _ = report::catch(|| h.world.node.get_heartbeat());
+                h.observe_held();
                 h.log.push(json!(["heartbeat"]));
             }
             7 => {
